@@ -415,6 +415,8 @@ def table_case(ctx, n_rec):
     finally:
         if os.path.exists(path):
             os.remove(path)
+    if ctx.rng.integers(2):
+        scoped_roundtrip(ctx, prm, recs, pr_fields, "result", case)
     # statistics
     stats = []
     try:
@@ -451,6 +453,47 @@ def table_case(ctx, n_rec):
     finally:
         if os.path.exists(path):
             os.remove(path)
+    if ctx.rng.integers(2):
+        scoped_roundtrip(ctx, psm, stats, ps_fields, "statistics", case)
+
+
+def scoped_roundtrip(ctx, mod, data, fields, what, case):
+    """The same table written with a column scope (the writers' public
+    `scope` argument, for embedding into a bigger table) and read back with
+    csv_select_scope."""
+    from pycommons.io.csv import csv_read, csv_select_scope, csv_write
+    scope = str(ctx.rng.choice(["pack", "a.b", "x"]))
+    ctx.count(f"scoped_{what}_tables")
+    try:
+        text = list(csv_write(
+            data=sorted(data), setup=mod.CsvWriter(scope).setup,
+            column_titles=mod.CsvWriter.get_column_titles,
+            get_row=mod.CsvWriter.get_row,
+            header_comments=mod.CsvWriter.get_header_comments,
+            footer_comments=mod.CsvWriter.get_footer_comments,
+            footer_bottom_comments=mod.CsvWriter.get_footer_bottom_comments))
+        back = sorted(csv_read(
+            rows=text,
+            setup=lambda cols: csv_select_scope(mod.CsvReader, cols, scope),
+            parse_row=mod.CsvReader.parse_row))
+        want = sorted(data)
+        if len(back) != len(want):
+            ctx.violation(f"{what}-csv-record-count",
+                          f"scope {scope!r}: {len(back)} vs {len(want)}",
+                          case)
+            return
+        seen = set()
+        for a, b in zip(want, back):
+            for dd in all_diffs(fields(a), fields(b), what):
+                m = result_mech(dd).replace("result-", f"{what}-")
+                if m not in seen:
+                    seen.add(m)
+                    ctx.violation(m, f"{what} CSV round trip with column "
+                                  f"scope {scope!r}: {dd}", case)
+    except Exception as e:  # noqa
+        ctx.violation(exc_mech(f"{what}-csv", e),
+                      f"{what} table with column scope {scope!r}: "
+                      f"{type(e).__name__}: {e}", case)
 
 
 def result_mech(dd: str) -> str:
